@@ -12,9 +12,6 @@ def run(ctx):
         ctx.leanchecker(["AvoVerif.Props.C02", "AvoVerif.Props.C02Term"])
     nt = lambda req, resp: req.startswith(("live ", "accept-live ")) and " 2 " in req or "usedef 1 " in req
     ctx.run_corpus("c02", nontrivial=nt)
-    if ctx.replay:
-        ctx.differential("c02", 0, nontrivial=nt)
-        return
     n = 1500 if ctx.tier == "quick" else 40000
     ctx.differential("c02", n, nontrivial=nt)
     ctx.coverage["rule"] = ("(a) every instruction form (quick: every 3rd row, offset by seed; thorough: every row x3 operand choices; all "
